@@ -160,6 +160,9 @@ class Seq:
             self.events.append({"kind": "tag", "label": None, "guards": list(guards), "loops": list(loops), "ln": n.get("ln")})
         if k == "call" and n.get("def", "").split("::")[-1] == "write_start_tag" and len(n.get("args", [])) >= 2:
             tag = hirq.lit_value(n["args"][1])
+            t1 = hirq.strip(n["args"][1])
+            if tag is None and t1.get("k") == "path" and not t1.get("def") and t1.get("lid") is not None:
+                tag = ("lid", t1["lid"])  # the element name is a parameter of a helper: resolved at the call site
             # first walk the arguments (vec! of tuples) so that inline tuples are seen, then label pending tag events
             for c in hirq.children(n):
                 self._walk(c, guards, loops)
